@@ -26,10 +26,11 @@ MODEL_ENGINE = "wrt"
 MS = 1000000
 SEC = 1000000000
 
-# Repairs the delivered MODEL assumes to be present in the tree under test (see notes/w2c.md):
-#   D25  fixes/D25.patch  a refused write does not register its instance      (Model/WriterEnt.lean `entWrite`)
-#   D34  fixes/D34.patch  the worker purges expired samples before every mail  (only when listed here: every scenario
-#        then starts with the dsim comment `# assume-fix D34`, which switches the model to `purgeFirst`)
+# Repairs the MODEL assumes to be present in the tree under test (all committed in /repo main, see notes/w2c.md "Follow-up"):
+#   D25  a refused write does not register its instance          (Model/WriterEnt.lean `entWrite`)
+#   D34  the worker purges expired samples before every mail       (`step`, World.iterate; the line `# assume-fix D34` that
+#        scenarios still start with is accepted and ignored by the model since the follow-up)
+#   D2/D8, D4/D42, D43: contiguous-only GAP on the reader, DATA after a gap, proxy kept on re-match
 # Environment override for experiments: WRT_ASSUME_D34=1
 import os as _os
 ASSUMED_FIXES = {"D25", "D34"}   # both repairs are committed in /repo (fix: commits); WRT_ASSUME_D34 is obsolete
@@ -287,8 +288,8 @@ def c27_oracle(case, out):
        `depth` samples were all written under the same withholding cannot be acknowledged, so it must NOT answer ok;
     D  the reliable KEEP_ALL reader that was matched before the first write ends up with exactly the successfully
        written samples of every instance, in order (nothing unacknowledged was dropped, nothing refused was stored);
-       a late-joining reader gets at most `depth` historical samples per instance and every sample written after it
-       was matched."""
+       a late-joining reader gets at most `depth` historical samples per instance - exactly the newest ones the writer
+       holds if both sides are TRANSIENT_LOCAL, none if it is VOLATILE - and every sample written after it was matched."""
     w = Walk(case, out)
     if w.broken:
         return broken_violation(w)
@@ -365,8 +366,13 @@ def c27_oracle(case, out):
                     viol.append({"what": f"late joiner received {len(old)} historical samples of instance {k} from a KEEP_LAST({depth}) writer: {old}"})
                 if depth is not None and any(v not in before[-depth:] for v in old):
                     viol.append({"what": f"late joiner received {old} of instance {k}; KEEP_LAST({depth}) must have replaced everything but {before[-depth:]}"})
-                # WHICH of the stored historical samples arrive is C04's subject (on the pinned tree a late joiner can lose one to the GAP
-                # handling D2 although the writer holds and sends it); C27 only bounds their number
+                # with the GAP repairs (D2, D42) in /repo a late joiner gets exactly what the writer holds at the match: the newest
+                # `depth` accepted samples of each instance if both sides are TRANSIENT_LOCAL, nothing if the reader is VOLATILE.
+                # (a write that was refused or timed out around the join is not tracked precisely: skip the exact comparison then)
+                exp_old = (before[-depth:] if depth is not None else before) if tl else []
+                if old != exp_old and not any(x["ans"] != "ok" for x in w.writes):
+                    viol.append({"what": f"late joiner (transient_local={tl}) received historical samples {old} of instance {k}, "
+                                         f"the writer held {exp_old} when it was matched"})
                 if [v for v in g if v in after] != after:
                     viol.append({"what": f"late joiner received {[v for v in g if v in after]} of the samples written after it was matched, the writer accepted {after} (instance {k})"})
         # never: a sample whose write was refused
@@ -390,9 +396,9 @@ def c29_oracle(case, out):
     E  every DATA submessage of the user writer that the trace shows at time t (whatever happened to the datagram
        afterwards) carries a sample with source timestamp + lifespan > t. The k-th successful write has sequence number
        k; its source timestamp is the `ts=` argument or the clock when the call was issued.
-       cause expired-repair-before-purge (D34) ONLY for a transmission emitted inside a `late-release` op at the instant
-       the clock jumped to, i.e. the answer to an ACKNACK that is handled before the overdue worker iteration of that
-       instant (the only mails inside that op are released ACKNACKs; after the iteration nothing expired is left);
+       cause expired-repair-before-purge (D34, repaired in /repo: the entry in known_findings.json is `fixed`, so a hit
+       is a violation again) for a transmission emitted inside a `late-release` op at the instant the clock jumped to,
+       i.e. the answer to an ACKNACK that is handled before the overdue worker iteration of that instant;
     W  a sample that was already expired when it was written is never sent and never received;
     R  the reader never returns a sample it could only have got from an expired transmission (follows from E with
        the zero-latency network; checked directly for the samples of W)."""
